@@ -62,7 +62,8 @@ def handle (c obs : String) : String × Bool × String :=
         | none =>
           let okAll := o.ok && (r.take.isSome || (match full with | some l => o.delivered == fmtVs (l.mergeSort (fun a b => fmtV a ≤ fmtV b)) | none => true)) && subOk
           (obs, okAll, if okAll then "" else "async: fault-free run does not deliver the mapped multiset")
-      | _, _ => (obs, false, "unparsable observation")
+      | _, _ => (obs, false, if obs.startsWith "crash" then "the process crashed: panic on a library goroutine"
+                             else if obs.startsWith "hang" then "the terminal operation did not return" else "unparsable observation")
     else
     let model := agreeOr { } (modelText p rs) obs
     match parseObs obs, rs with
